@@ -419,3 +419,85 @@ def check_C20(tier):
                             "into_routine on the A64 (0..7) and X86 (0..5) machines; all judged by spec/Runtime.tla in TLC"},
                    time.time() - t0, len(viols), assumptions=["gcc and glibc of this sandbox", "spec/Word64.tla ToDecimal (validated against Rust by the Word64 conformance test)"])
     return 1 if new else 0
+
+
+# ---------------------------------------------------------------------------------------------- C17 (determinism)
+def check_C17(tier):
+    import re, time, collections, subprocess
+    t0 = time.time()
+    build_harness()
+    work = fresh_dir(WORK, "C17")
+    # 1. TLC enumerates all request histories of the abstract driver model
+    cfg = open(os.path.join(SPEC, "MC_Pipeline.cfg")).read().replace("MaxLen = 3", "MaxLen = %d" % T(tier, 3, 4))
+    open(os.path.join(SPEC, "MC_Pipeline_run.cfg"), "w").write(cfg)
+    r = run_tlc("MC_Pipeline", "MC_Pipeline_run.cfg", os.path.join(work, "mc"), {}, workers=8, timeout=1500)
+    if r["states"] is None or r["rc"] != 0:
+        raise ToolError("MC_Pipeline did not complete: %s" % r["errors"][:2])
+    hists = []
+    for line in open(r["out"]):
+        if line.startswith('"HISTORY '):
+            hists.append(tuple(tuple(q) for q in json.loads(json.loads(line.strip())[len("HISTORY "):])))
+    hists = sorted(set(hists))
+    if len(hists) != 16 ** T(tier, 3, 4):
+        raise ToolError("expected %d histories, TLC printed %d" % (16 ** T(tier, 3, 4), len(hists)))
+    if not hists:
+        raise ToolError("no histories enumerated")
+    srcs = {"p1": os.path.join(VERIF, "corpus", "det", "poly.sc"), "p2": os.path.join(VERIF, "corpus", "det", "small.sc")}
+    # 2. replay: process A all histories, further processes a sample (other hash seeds), one with the sources swapped
+    rng = rng_for("C17")
+    nproc = T(tier, 4, 8)
+    logs = []
+    for pi in range(nproc):
+        hs = hists if pi == 0 else rng.sample(hists, min(len(hists), T(tier, 300, 3000)))
+        spec = {"sources": srcs, "histories": [[list(q) for q in h] for h in hs]}
+        sp = os.path.join(work, "spec%d.json" % pi)
+        json.dump(spec, open(sp, "w"))
+        lp = os.path.join(work, "log%d.ndjson" % pi)
+        sccv("driver-replay", sp, os.path.join(work, "cwd%d" % pi), lp, timeout=3000)
+        logs.append([json.loads(l) for l in open(lp)])
+    # 3. reference = first occurrence in process 0; every log (process 0 included) is validated against it
+    ref = {}
+    for e in logs[0]:
+        if e["outcome"] == "ok":
+            ref.setdefault("%s|%s" % (e["path"], e["kind"]), e["hash"])
+    traces = []
+    for pi, lg in enumerate(logs):
+        # one trace per chunk of events (keeps TLC's behaviours short); a chunk never splits a history
+        chunk, cur = [], None
+        for e in lg:
+            if cur is not None and e["hist"] != cur and len(chunk) >= 600:
+                traces.append({"name": "process%d-upto-history-%s" % (pi, cur), "kind": "history", "events": chunk, "facts": {"nargs": 0, "maxctx": 0, "hasprint": False}})
+                chunk = []
+            cur = e["hist"]
+            chunk.append(e)
+        if chunk:
+            traces.append({"name": "process%d-upto-history-%s" % (pi, cur), "kind": "history", "events": chunk, "facts": {"nargs": 0, "maxctx": 0, "hasprint": False}})
+    wd = os.path.join(work, "trace")
+    os.makedirs(wd, exist_ok=True)
+    tp, cp = os.path.join(wd, "traces.json"), os.path.join(wd, "cfg.json")
+    json.dump(traces, open(tp, "w"))
+    json.dump({"reference": ref or {"none|none": ""}}, open(cp, "w"))
+    r2 = tlc_batch("TracePipeline", "TracePipeline.cfg", wd, {"SCCV_CASES": tp, "SCCV_CFG": cp}, len(traces), timeout=3000)
+    viols, stats = [], collections.Counter()
+    for x in r2["results"]:
+        stats[x["status"]] += 1
+        if x["status"] == "tool":
+            raise ToolError(x["why"])
+        if x["status"] != "accepted":
+            m = re.search(r"content of (\S+) differs", x["why"])
+            what = m.group(1) if m else lockstep.normalize_why(x["why"])
+            rp = save_replay("C17", x["case"], {"trace": x["case"], "why": x["why"], "sources": srcs})
+            viols.append({"signature": "C17:%s" % what, "what": x["why"], "replay": rp})
+    nreq = sum(len(l) for l in logs)
+    log("[C17] %d histories, %d processes, %d requests, %s" % (len(hists), nproc, nreq, dict(stats)))
+    new = triage("C17", viols)
+    write_evidence("C17", tier, "model_checking",
+                   {"states": r["distinct"] + r2["distinct"], "transitions": r["states"] + r2["states"], "traces_validated_against_impl": nreq,
+                    "samples": [{"history": [list(q) for q in hists[len(hists) // 3]]}, {"reference": dict(list(ref.items())[:3])}],
+                    "histories": len(hists), "processes": nproc, "exhaustive": True,
+                    "rule": "all request histories of length %d over 2 sources x 8 printable stages enumerated by TLC from spec/Pipeline.tla, "
+                            "replayed on fresh Drivers in one process and samples of them in %d further processes (fresh hash seeds); every "
+                            "recorded content hash (assembly modulo label renaming) validated by spec/TracePipeline.tla against the first "
+                            "process' first answer" % (T(tier, 3, 4), nproc - 1)},
+                   time.time() - t0, len(viols), assumptions=["FNV-1a 64 hashes stand for contents", "label renaming = first-appearance order of defined labels"])
+    return 1 if new else 0
